@@ -448,6 +448,25 @@ func ruleAllModelsValidated(c *core.Ctx) {
 		if len(callsIn(info, l.Body, fl)) > 0 {
 			okFl = true
 		}
+		// the recursion may be a local closure calling itself: `visit = func(ns) { ...; for ... { visit(ref) } ... }`
+		ast.Inspect(fld.Body, func(n ast.Node) bool {
+			as, ok := n.(*ast.AssignStmt)
+			if !ok || len(as.Lhs) != 1 || len(as.Rhs) != 1 {
+				return true
+			}
+			lit, ok := as.Rhs[0].(*ast.FuncLit)
+			self := identObj(info, as.Lhs[0])
+			if !ok || self == nil || !(lit.Body.Pos() <= l.Body.Pos() && l.Body.End() <= lit.Body.End()) {
+				return true
+			}
+			ast.Inspect(l.Body, func(m ast.Node) bool {
+				if ce, isCall := m.(*ast.CallExpr); isCall && identObj(info, ce.Fun) == self {
+					okFl = true
+				}
+				return true
+			})
+			return true
+		})
 	}
 	c.Check(okFl, rule, "flattenNamespaces/recurse References", fld.Pos(), "every referenced namespace is flattened into the validated set", "references are not followed")
 }
